@@ -104,6 +104,10 @@ Lemma cash_low_indep : forall t, t < 2 ^ cash_pm_symbits ->
   N.land (gs cash_gen t) (N.ones cash_pm_symbits) = 0 -> t = 0.
 Proof. apply low_indep_of_sweep. vm_compute. reflexivity. Qed.
 
+(* ---- minimum data lengths passed to _DecodeBech32: SegWit and CashAddr need their version symbol / byte *)
+Lemma dec_min_data : segwit_decoder_min_data = 1%nat /\ cash_decoder_min_data = 1%nat /\ (bech32_decoder_min_data <= 1)%nat.
+Proof. split; [reflexivity|]. split; [reflexivity|]. apply PeanoNat.Nat.leb_le. reflexivity. Qed.
+
 (* ---- SegWit limits *)
 Lemma segwit_consts : segwit_prog_min = 2%nat /\ segwit_prog_max = 40%nat /\ segwit_ver_bech32 = 0 /\
   segwit_ver_max = 16 /\ segwit_v0_lens = [20%nat; 32%nat].
